@@ -23,6 +23,15 @@
                  the ORACLE: ((cid data) ...) a reference walk opened, and whether it returned nil
      verify      ()                             files (in)      -> (status)            ()
      inspect     (full)                         files (in)      -> (status stats)      ()
+     listfile    ()                             files (in)      -> (status (cid ...))  (arch)     [car list in out.txt]
+     outindep    (tname ...)                    files ()        -> (n1)   the harness ran a command the model does not
+                 cover (create, extract, debug, compile) twice -- output path absent / pre-existing and
+                 longer -- and reports 1 iff status and output bytes are identical (compile: the same blocks
+                 and length; it emits blocks in Go map order), 2 iff the second run refused (exit 1) and left
+                 the existing file untouched (what car create does), 0 otherwise
+   files may end with (tpre b<bytes>): the content of a file already sitting at the OUTPUT path before the
+   command runs (for filter / getdag it is files[1] instead).  A command that fails before touching its
+   output leaves that content there; otherwise the result is exactly the command's output.
    status = tok | terr (exit status class); out = b<bytes> | tnone;
    post = () when there is no output file or the command failed, else
           (status of `car inspect --full out`, status of `car verify out`). *)
@@ -61,6 +70,18 @@ Definition v_cid_table (v : val) : list (bytes * bytes) :=
 Definition intended_sel (v : val) : list bytes :=
   if cidlist_new v then vcids (vnth 3 v) else vcids v.
 
+(* a file already at the output path: (tpre b<bytes>) at the end of the file list *)
+Definition pre_of (files : list val) : option bytes :=
+  match rev files with
+  | VL [VT t; VB b] :: _ => if String.eqb t "pre" then Some b else None
+  | _ => None
+  end.
+Definition in_files (files : list val) : list val :=
+  filter (fun v => match v with VB _ => true | VT _ => true | _ => false end) files.
+(* None from a command model = "the output path was not touched" *)
+Definition out_or_pre (pre : option bytes) (r : bool * option bytes) : bool * option bytes :=
+  match snd r with Some _ => r | None => (fst r, pre) end.
+
 Section Run.
   Variable hok : bytes -> bytes -> option bool.
   Variable hdrdec : bytes -> option (list bytes * N).
@@ -76,7 +97,8 @@ Section Run.
   Definition run_cli_with (input : val) : val :=
     let cmd := vnth 0 input in
     let flags := vnth 1 input in
-    let files := vL (vnth 2 input) in
+    let pre := pre_of (vL (vnth 2 input)) in
+    let files := in_files (vL (vnth 2 input)) in
     let f0 := vB (nth 0 files (VB [])) in
     if is_t cmd "filter" then
       let outf := vfile (nth 1 files (VT "none"%string)) in
@@ -89,13 +111,13 @@ Section Run.
                         (vbool (vnth 3 flags)) f0 outf in
       VL [v_status ok; v_file out; v_post ok out]
     else if is_t cmd "index" then
-      let '(ok, out) := index_car hdrdec (vN (vnth 0 flags)) (vN (vnth 1 flags)) f0 in
+      let '(ok, out) := out_or_pre pre (index_car hdrdec (vN (vnth 0 flags)) (vN (vnth 1 flags)) f0) in
       VL [v_status ok; v_file out; v_post ok out]
     else if is_t cmd "indexcreate" then
-      let '(ok, out) := index_create hdrdec (vN (vnth 0 flags)) f0 in
+      let '(ok, out) := out_or_pre pre (index_create hdrdec (vN (vnth 0 flags)) f0) in
       VL [v_status ok; v_file out]
     else if is_t cmd "detach" then
-      let '(ok, out) := detach_index hdrdec f0 in
+      let '(ok, out) := out_or_pre pre (detach_index hdrdec f0) in
       VL [v_status ok; v_file out]
     else if is_t cmd "detachlist" then
       let '(ok, es) := detach_list f0 in
@@ -107,10 +129,16 @@ Section Run.
       end
     else if is_t cmd "list" then
       let '(ok, cs) := list_car hok hdrdec f0 in VL [v_status ok; v_cids cs]
+    else if is_t cmd "listfile" then
+      let '(ok, cs) := list_car hok hdrdec f0 in VL [v_status ok; v_cids cs]
+    else if is_t cmd "outindep" then
+      (* car create goes through blockstore.OpenReadWrite, which tries to RESUME a non-empty file: over
+         a file that is not the CAR it would write it refuses (exit 1) and leaves the file as it was *)
+      VL [VN (if is_t (vnth 0 flags) "create" then 2 else 1)]
     else if is_t cmd "root" then
       let '(ok, cs) := root_car hdrdec f0 in VL [v_status ok; v_cids cs]
     else if is_t cmd "concat" then
-      let '(ok, out) := concat_car hdrdec (vN (vnth 0 flags)) (map vB files) in
+      let '(ok, out) := out_or_pre pre (concat_car hdrdec (vN (vnth 0 flags)) (map vB files)) in
       VL [v_status ok; v_file out; v_post ok out]
     else if is_t cmd "getdag" then
       let tr := vnth 4 flags in
@@ -310,6 +338,12 @@ Definition prop_cli_with (hok : bytes -> bytes -> option bool) (hdrdec : bytes -
     else if is_t cmd "list" then
       if ok && cids_eqb (vcids (vnth 1 obs)) (map fst (a_blocks a0)) then VT "ok"%string
       else fail2 "list-scan-order" "list"
+    else if is_t cmd "listfile" then
+      if ok && cids_eqb (vcids (vnth 1 obs)) (map fst (a_blocks a0)) then VT "ok"%string
+      else fail2 "list-scan-order" "listfile"
+    else if is_t cmd "outindep" then
+      if (vN (vnth 0 obs) =? 1) || ((vN (vnth 0 obs) =? 2) && is_t (vnth 0 flags) "create")
+      then VT "ok"%string else fail2 "output-depends-on-existing-file" "outindep"
     else if is_t cmd "root" then
       if ok && cids_eqb (vcids (vnth 1 obs)) (a_roots a0) then VT "ok"%string
       else fail2 "root" "root"
